@@ -17,6 +17,13 @@ pub mod titer {
             forall|i: int| 0 <= i < final(v)@.len() ==> old(v)@.contains(#[trigger] final(v)@[i]),
             forall|i: int, j: int| 0 <= i <= j < final(v)@.len() ==> crate::dur(final(v)@[i].1) <= crate::dur(final(v)@[j].1),
     { v.sort_by(|a, b| a.1.partial_cmp(&b.1).unwrap()) }
+    // the same with the comparator's operands swapped: descending
+    #[verifier::external_body]
+    pub fn sort_by_duration_desc(v: &mut Vec<(usize, std::time::Duration)>)
+        ensures final(v)@.len() == old(v)@.len(),
+            forall|i: int| 0 <= i < final(v)@.len() ==> old(v)@.contains(#[trigger] final(v)@[i]),
+            forall|i: int, j: int| 0 <= i <= j < final(v)@.len() ==> crate::dur(final(v)@[i].1) >= crate::dur(final(v)@[j].1),
+    { v.sort_by(|a, b| b.1.partial_cmp(&a.1).unwrap()) }
     // V.retain(C)   (rule T-ITER): std semantics, assumed
     #[verifier::external_body]
     pub fn retain<T, F: FnMut(&T) -> bool>(v: &mut Vec<T>, f: F)
